@@ -35,8 +35,9 @@ CHECKS = {
     },
     "C01": {
         "text": "Theorems over the frame model (both versions, gzip as an oracle with a stated soundness assumption): encoding errors for unknown types "
-                "and over-limit bodies, and (growing) the one-shot round trip composed from layout conformance (C02), the metadata round trip (C09) and "
-                "the oracle assumption. The model's bit-level expressions and constants are regenerated from the source; every Pack/UnpackBytes result of "
+                "and over-limit bodies, the one-shot round trip (roundtrip_oneshot) composed from layout conformance (C02), the metadata round trip (C09) and "
+                "the oracle assumption, and the streaming round trip (roundtrip_stream: every chunking of the concatenated frames of any packet list, "
+                "also through the ring model with any initial capacity). The model's bit-level expressions and constants are regenerated from the source; every Pack/UnpackBytes result of "
                 "the real code is compared with the model over all types x verify x metadata x boundary body lengths x thresholds, and the round-trip "
                 "relation itself is evaluated on the real code (one-shot and streaming decoders).",
         "design_ref": "DESIGN.md section 7, C01",
@@ -54,8 +55,9 @@ CHECKS = {
     },
     "C03": {
         "text": "The ring buffer model (written after the dependency's source, incl. growth and the split copy) is proved to refine a byte queue for every "
-                "capacity, offset and wrap position (length, peek, retrieve, write; read/peekUintN and the decoder-level geometry/chunking theorems "
-                "are being added); the resumable v1/v2 decoders are modelled statement by statement over that ring. Real ring operations and real "
+                "capacity, offset and wrap position (length, peek, retrieve, write, read, peekUintN; decoder-level geometry, chunking independence incl. errors, and completeness: "
+                "stream_yields_each_frame — back-to-back valid frames in any chunking yield exactly the one-shot decoder's packets); the resumable "
+                "v1/v2 decoders are modelled statement by statement over that ring. Real ring operations and real "
                 "streaming decodes are compared with the model per operation/per call over every cut position, ring capacities 1..4096 and every "
                 "wrap offset of every header field, and the property (chunked = whole = frame list) is evaluated on the real code.",
         "design_ref": "DESIGN.md section 7, C03",
